@@ -1495,7 +1495,9 @@ struct array : static_array<T, D, Alloc> {
 			adl_alloc_uninitialized_value_construct_n(this->alloc(), tmp.data_elements(), tmp.num_elements());
 		}
 		auto const is = intersection(this->extensions(), extensions);
-		tmp.apply(is) = this->apply(is);  // TODO(correaa) : use (and implement) `.move();`
+		if(is.num_elements() != 0) {  // nothing in common (e.g. an empty side): do not slice a storage-less array
+			tmp.apply(is) = this->apply(is);  // TODO(correaa) : use (and implement) `.move();`
+		}
 		this->destroy();
 		this->deallocate();
 		this->base_            = tmp.base();
@@ -1526,7 +1528,9 @@ struct array : static_array<T, D, Alloc> {
 		);
 		this->uninitialized_fill_n(tmp.data_elements(), static_cast<typename multi::allocator_traits<typename array::allocator_type>::size_type>(tmp.num_elements()), elem);
 		auto const is = intersection(this->extensions(), exs);
-		tmp.apply(is) = this->apply(is);
+		if(is.num_elements() != 0) {  // nothing in common (e.g. an empty side): do not slice a storage-less array
+			tmp.apply(is) = this->apply(is);
+		}
 		this->destroy();
 		this->deallocate();
 		this->base_            = tmp.base();  // TODO(correaa) : use (and implement) `.move();`
